@@ -188,9 +188,36 @@ async def check_package_failure_path(ctx, case):
             return
 
 
+def _deep(n, f):
+    return f() if n == 0 else _deep(n - 1, f)
+
+
+def check_deep_call_stack(ctx, case):
+    """the cached parsers called from deep inside the caller's own recursion (case: {"depth", "operands", "op", "ahb"}): a well-formed
+    string is a tree there as well - the parsers must not need a number of stack frames that grows with the length of the expression
+    (the pinned code did not; lark's Earley parser and tree builder are iterative)"""
+    ctx.set_case("deep-call-stack", case)
+    chain = case["op"].join("[%d]" % (i + 1) for i in range(case["operands"]))
+    s = ("Muss " + chain) if case["ahb"] else chain
+    fn = parse_ahb_expression_to_single_requirement_indicator_expressions if case["ahb"] else parse_condition_expression_to_tree
+    for attempt in ("first call", "second call (cache hit)"):
+        ctx.evaluation()
+        ctx.count("calls_from_a_deep_call_stack")
+        out = capture(_deep, case["depth"], lambda: fn(s))
+        if out[0] != "ok":
+            kind = "rejects-wellformed" if isinstance(out[1], SyntaxError) else f"raises-{type(out[1]).__name__}"
+            ctx.violation(("ahb-parser-" if case["ahb"] else "condition-parser-") + kind, f"{fn.__name__}(<{case['operands']} operands joined by {case['op']!r}>) called {case['depth']} frames deep, {attempt}: {describe(out)[:200]}")
+            return
+    ctx.nontrivial(["deep", s[:40], case["depth"]])
+
+
 async def run(ctx):
     rng = ctx.rng
     E.install()
+    if ctx.shard == 0:
+        for depth, operands in ((700, 100), (650, 90)) if ctx.quick else ((700, 100), (650, 90), (600, 110), (500, 150), (0, 260)):
+            for ahb in (False, True):
+                check_deep_call_stack(ctx, {"depth": depth, "operands": operands, "op": rng.choice(["U", "O", "X", " "]), "ahb": ahb})
     for i in range(ctx.budget(60, 3_000)):
         key = rng.choice(["1P", "7P", "123P"])
         inner = wellformed_condition(rng)
@@ -212,7 +239,9 @@ async def run(ctx):
 
 async def replay(ctx, phase, case):
     E.install()
-    if phase == "package-failure-path":
+    if phase == "deep-call-stack":
+        check_deep_call_stack(ctx, case)
+    elif phase == "package-failure-path":
         await check_package_failure_path(ctx, case)
     else:
         await check_string(ctx, case["s"], case.get("class", "replay"))
